@@ -162,7 +162,9 @@ func (w *World) registerIntrinsics() {
 			e.unsupported("verifOpaque: the secret must be symbolic")
 		}
 		if exposes(obs, sec, map[*Term]bool{}) {
-			e.check("assert", id, "secret occurs in the observable outside any encryption/MAC/hash ("+id+")", mkEq(sec, mkStr("")))
+			// (secrets shorter than 8 bytes are not looked for natively: they occur in
+			// base64 text by chance)
+			e.check("assert", id, "secret occurs in the observable outside any encryption/MAC/hash ("+id+")", mkLt(mkLen(sec), mkInt(8)))
 		} else {
 			e.res.Obligations++
 			e.res.Discharged++
